@@ -22,6 +22,7 @@ import vthreads as vt  # noqa: E402
 TRACE = {'clock.py': None, 'machine.py': {'run', 'stop', '_wait'},
          'script_job.py': {'execute', 'request_stop'}}
 TRACE_JC = dict(TRACE, **{'job_control.py': None})
+TRACE_WEB = dict(TRACE_JC, **{'web_app.py': {'stop_all'}})
 POP = [{"label": "A", "group": "G", "location": "L", "kind": "plain",
         "color": [0, 0, 0, 3500], "power": 0}]
 DAY0 = 1036800.0
@@ -574,7 +575,7 @@ def main():
     injection.bind(clock_mod.Clock).to(i_lib.Clock)
     install_flag_watch(Machine, clock_mod.Clock)
     mods = (clock_mod, jc_mod, settings_mod, ScriptJob, WebApp, net)
-    stats = {'runs': 0, 'systematic': 0, 'split': 0, 'random': 0, 'steps': 0, 'by_shape': {},
+    stats = {'runs': 0, 'systematic': 0, 'split': 0, 'split-stop-all': 0, 'random': 0, 'steps': 0, 'by_shape': {},
              'by_stop': {}, 'outcomes': {}, 'stopped_in_wait': 0, 'stopped_running': 0,
              'stopped_after_end': 0}
 
@@ -647,6 +648,19 @@ def main():
             for burst, gap in (((3, 2), (3, 9), (2, 5)) if not chk.thorough else ((3, 2), (3, 9), (2, 5), (4, 4))):
                 pol = vt.Inject2(vt.RunToBlock(max_run=150), 'R', [(i, burst), (i + burst + gap, None)])
                 do(Scenario(shape, 'request_stop' if (i // 3) % 2 else 'stop_current', pol), 'split')
+
+    # ---- stop-all split at every one of its own lines (and every line of the controller calls it
+    # makes): the other threads run until they block, then the requester finishes
+    for shape in SHAPES:
+        n = min(base_len[shape], 320)
+        points = sorted({0, 1, n // 5, n // 3, n // 2, (2 * n) // 3, n - 2} if not chk.thorough
+                        else set(range(0, n, 4)))
+        for i in points:
+            if i < 0:
+                continue
+            for burst in range(1, 30):
+                pol = vt.Inject2(vt.RunToBlock(max_run=150), 'R', [(i, burst), (i + burst + 200, None)])
+                do(Scenario(shape, 'stop_all', pol, trace=TRACE_WEB), 'split-stop-all')
 
     # ---- random schedules (job_control.py traced as well)
     n_rand = 400 if not chk.thorough else 8000
